@@ -661,11 +661,12 @@ fn main() {
     }
     Some("biftotal") => {
       // BOUNDED stand-in (not a proof) for C05 on the built-in functions: every built-in name (file, one per line) applied to every
-      // tuple of 0..2 arguments from a 23-value grid and to every triple from an 8-value grid must return a value: no panic.
+      // tuple of 0..2 arguments from a 26-value grid and to every triple from a 10-value grid must return a value: no panic.
       let names = std::fs::read_to_string(&args[2]).unwrap_or_default();
       let grid: Vec<&str> = vec!["null", "0", "1", "-1", "2.5", "18446744073709551616", "\"\"", "\"a\"", "\"ż€\"", "true", "[]", "[null]", "[1,2]", "[\"a\"]", "[[1]]", "{}", "{a: 1}",
-        "date(\"2020-01-31\")", "time(\"10:00:00\")", "date and time(\"2020-01-01T10:00:00\")", "duration(\"P1D\")", "duration(\"P1M\")", "function(x, y) x < y"];
-      let small: Vec<&str> = vec!["null", "0", "-1", "18446744073709551616", "\"a\"", "[]", "[null]", "[1,2]"];
+        "date(\"2020-01-31\")", "time(\"10:00:00\")", "date and time(\"2020-01-01T10:00:00\")", "duration(\"P1D\")", "duration(\"P1M\")", "function(x, y) x < y",
+        "-9223372036854775808", "9223372036854775807", "-9223372036854775807"];   // the limits of the machine integers positions and lengths are converted to
+      let small: Vec<&str> = vec!["null", "0", "-1", "18446744073709551616", "\"a\"", "[]", "[null]", "[1,2]", "-9223372036854775808", "9223372036854775807"];
       let mut cases = 0usize;
       let mut failures: Vec<String> = vec![];
       let mut nfail = 0usize;
@@ -718,7 +719,9 @@ fn main() {
         let _ = &out;
       }
     }
-    Some("modelbatch") => {
+    Some("modelbatch") | Some("modelbatchk") => {
+      // (modelbatchk: the knowledge models are invoked by name too, after the decision services)
+      let with_bkm = args[1] == "modelbatchk";
       // modelbatch <xml-file> <context-text>...: build the model once, evaluate every decision, then every decision service (document order) for every context
       let xml = std::fs::read_to_string(&args[2]).unwrap_or_default();
       let ctxs: Vec<String> = args[3..].to_vec();
@@ -734,7 +737,8 @@ fn main() {
                 match dmntk_feel_evaluator::evaluate_context(&scope, c) {
                   Err(e) => out.push_str(&format!("CONTEXT-ERROR {}\n", e)),
                   Ok(ctx) => {
-                    let names: Vec<String> = defs.decisions().iter().map(|d| d.name().to_string()).chain(defs.decision_services().iter().map(|d| d.name().to_string())).collect();
+                    let mut names: Vec<String> = defs.decisions().iter().map(|d| d.name().to_string()).chain(defs.decision_services().iter().map(|d| d.name().to_string())).collect();
+                    if with_bkm { names.extend(defs.business_knowledge_models().iter().map(|d| d.name().to_string())); }
                     for name in names {
                       let v = std::panic::catch_unwind(std::panic::AssertUnwindSafe(|| me.evaluate_invocable(&name, &ctx).to_string())).unwrap_or("PANIC".to_string());
                       out.push_str(&format!("{}\t{}\t{}\n", name, c, v));
